@@ -16,9 +16,10 @@ def to_case(i, beh):
                         else {str(t): bool(v) for t, v in st["tAlive"].items()},
                         swept={str(t + 1): bool(v) for t, v in enumerate(st["swept"])} if isinstance(st["swept"], tuple)
                         else {str(t): bool(v) for t, v in st["swept"].items()},
-                        res=[dict(kind=str(r["kind"]), exists=bool(r["exists"])) for r in st["res"]]))
+                        res=[dict(kind=str(r["kind"]), exists=bool(r["exists"]), tracker=int(r["tracker"])) for r in st["res"]]))
     owners = [str(r["owner"]) for r in beh[-1][1]["res"]]
-    return dict(i=i, parent=parent, steps=steps, exp=exp, owners=owners)
+    conf = dict(method=str(first["conf"]["method"]), imp=bool(first["conf"]["imp"]), strict=bool(first["conf"]["strict"]))
+    return dict(i=i, parent=parent, steps=steps, exp=exp, owners=owners, conf=conf)
 
 
 def run(ctx, prop, want_ops, num_quick, num_thorough):
@@ -43,7 +44,7 @@ def run(ctx, prop, want_ops, num_quick, num_thorough):
         if not any(o in want_ops for o in ops) or len(b) < 4:
             continue
         c = to_case(len(cases), b)
-        k = json.dumps(c["steps"])
+        k = json.dumps([c["steps"], c["conf"]])
         if k in seen:
             continue
         seen.add(k)
@@ -81,7 +82,7 @@ def run(ctx, prop, want_ops, num_quick, num_thorough):
         if m["why"].startswith("harness:") or "does not answer" in m["why"] or "no reply" in m["why"]:
             raise runner.Machinery("tree_controller: %s on %s | %s" % (m["why"], m["steps"], m.get("log", "")[-300:]))
     for c in cases:
-        ctx.case(key=json.dumps(c["steps"]), nontrivial=any(s[0] in ("killtracker", "die", "signal") for s in c["steps"]))
+        ctx.case(key=json.dumps([c["steps"], c["conf"]]), nontrivial=any(s[0] in ("killtracker", "die", "signal") for s in c["steps"]))
     mine = [m for m in bad if ("semaphore" in m["why"]) == (prop == "C13")]
     ctx.traces_validated += len(cases) - len(mine)
     ctx.extra["behaviours_replayed_on_real_trees"] = len(cases)
